@@ -99,10 +99,38 @@ def lock_proto(repo, res):
     lock_opens = [(c, mode, p) for c, mode, p in opens if p is not None and _is_lock_path(sl, p)]
     key = f"{gcm.key}:lock-open"
     res.ob(key)
+    # other ways of creating the lock file (non-atomic test-then-create idioms)
+    other_creates = []
+    for c in calls_in(gcm.node):
+        nm = call_name(c) or ""
+        last = nm.split(".")[-1]
+        if last in ("touch", "write_text", "write_bytes", "mkfifo", "mknod") and isinstance(c.func, ast.Attribute) \
+                and _is_lock_path(sl, c.func.value):
+            excl = last == "touch" and any(k.arg == "exist_ok" and isinstance(k.value, ast.Constant) and k.value.value is False for k in c.keywords)
+            other_creates.append((c, last, excl))
+        if nm == "os.open" and c.args and _is_lock_path(sl, c.args[0]):
+            excl = "O_EXCL" in ast.unparse(c)
+            other_creates.append((c, "os.open", excl))
+    if not lock_opens:
+        lock_path_known = any(_is_lock_path(sl, v) for vals in sl.defs.values() for v in vals)
+        excl_other = [c for c, _n, ex in other_creates if ex]
+        if other_creates and not excl_other:
+            c, nmx, _ = other_creates[0]
+            res.fail(key, f"the lock file is created with {nmx}() instead of an exclusive create: two requests "
+                     "that both find it missing both become the builder", m.line(c))
+            res.fail(f"{gcm.key}:lock-mode", "no atomic exclusive-create of '<module>.c'", m.line(c))
+            return
+        if lock_path_known and not other_creates:
+            res.fail(key, "get_cached_module never creates the '<module>.c' lock file exclusively", m.line(gcm.node))
+            return
+        if excl_other:
+            raise AnalysisError("LOCK-PROTO: lock taken by an exclusive idiom this rule does not model; extend the rule")
+        raise AnalysisError("LOCK-PROTO: no '<module>.c' lock path recognisable in get_cached_module")
     if len(lock_opens) != 1:
-        if not lock_opens:
-            raise AnalysisError("LOCK-PROTO: no open() of the '<module>.c' lock in get_cached_module")
         res.fail(key, f"{len(lock_opens)} opens of the lock file, expected exactly one", m.line(gcm.node))
+    for c, nmx, ex in other_creates:
+        if not ex:
+            res.fail(key, f"lock file also created by non-exclusive {nmx}()", m.line(c))
     lock_call, mode, _ = lock_opens[0]
     res.ob(f"{gcm.key}:lock-mode")
     if "x" not in mode:
